@@ -59,11 +59,11 @@ def register_forward_ref(
     if not isinstance(annotation, ForwardRef):
         return
     evaluated = None
-    if annotation.__forward_evaluated__:
-        evaluated = True
-        annotation = annotation.__forward_value__
-    elif global_vars:
+    if global_vars:
         ref = annotation
+        # an evaluation found in the object may come from another declaration that spells the
+        # reference the same way (typing caches generic aliases): evaluate in our own namespace
+        ref.__forward_evaluated__ = False
         try:
             annotation = evaluate_forward_ref(annotation, global_vars, None)
         except NameError:
@@ -74,6 +74,9 @@ def register_forward_ref(
             if force_clear:
                 ref.__forward_evaluated__ = False
                 ref.__forward_value__ = None
+    elif annotation.__forward_evaluated__:
+        evaluated = True
+        annotation = annotation.__forward_value__
     if evaluate_only:
         return annotation
     if not evaluated:
